@@ -20,10 +20,10 @@ fn run_deadline(t: std::sync::Arc<TablesBox>, text: String, o: RunOpts) -> Resul
         let r = std::panic::catch_unwind(std::panic::AssertUnwindSafe(|| dynrt::run(&t.0, &text, o)));
         let _ = tx.send(r.map_err(crate::panic_msg));
     });
-    match rx.recv_timeout(Duration::from_secs(10)) {
+    match rx.recv_timeout(Duration::from_secs(60)) {
         Ok(Ok(v)) => Ok(v),
         Ok(Err(m)) => Err(format!("panic: {m}")),
-        Err(_) => Err("no result after 10 s".into()),
+        Err(_) => Err("no result after 60 s".into()),
     }
 }
 
